@@ -11,8 +11,23 @@ DEFAULT_PROFILE = dict(
     p_timer=0.35, p_send=0.35, p_local=0.2, p_cancel=0.1, p_once=0.3,
     p_fault=0.2, p_link=0.15, p_crash=0.1, p_mode=0.15, depth=(3, 5), locals=(1, 2),
     strategies=("dfs", "bfs"), caches=("full", "partial", "disabled"), two_runs=0.2, staged=0.0,
-    collect_always=False, same_timer_name=0.3, identical_msgs=0.3,
+    collect_always=False, same_timer_name=0.3, identical_msgs=0.3, terminating=False,
 )
+
+
+def make_terminating(rules):
+    """a rule that sends or sets a timer strictly increases the control state and control state 3 has no
+    productive rules, so every process produces finitely many events and the state space is finite"""
+    fixed = []
+    for r in rules:
+        w = r.split()
+        st = int(w[2]); acts = w[5:]
+        if any(a[0] in "STO" for a in acts):
+            if st >= 3:
+                acts = [a for a in acts if a[0] not in "STO"]
+            w[4] = str(st + 1)
+        fixed.append(" ".join(w[:5] + acts))
+    return fixed
 
 
 def profile(**kw):
@@ -76,6 +91,9 @@ def gen_scenario(rng, prof):
                     work.append((parts[3], f"M:{parts[1]}"))
                 elif parts[0] in ("T", "O"):
                     work.append((p, f"T:{parts[1]}"))
+    if prof["terminating"]:
+        rl = make_terminating([l for l in lines if l.startswith("rule")])
+        lines = [l for l in lines if not l.startswith("rule")] + rl
     for k in ("drop", "dupl", "corrupt"):
         if rng.random() < prof["p_fault"]:
             lines.append(f"net {k} 1")
@@ -121,6 +139,12 @@ def gen_scenario(rng, prof):
         goal = rng.choice(["noev", "noev", f"out:{p}:{rng.randint(1, 3)}|noev", f"st:{p}:{rng.choice([1, 2])}|noev"])
         inv = rng.choice(["none", "none", "none", f"out:{p}:{rng.randint(2, 4)}", f"st:{rng.choice(procs)}:2"])
         coll = "always" if prof["collect_always"] else rng.choice(["none", f"out:{p}:1", f"st:{p}:1", "noev", f"dgt:{max(d - 2, 0)}"])
+        if prof["terminating"]:
+            # state-based predicates only (the depth is not part of the state identity)
+            pr = rng.choice(["none", "none", f"out:{rng.choice(procs)}:{rng.randint(2, 3)}", f"st:{rng.choice(procs)}:3"])
+            if coll.startswith("dgt"):
+                coll = "noev"
+            return f"inv={inv} goal={goal} prune={pr} collect={coll}"
         return f"inv={inv} goal={goal} prune=dgt:{d} collect={coll}"
 
     lines += callbacks()
@@ -212,13 +236,20 @@ def compare(impl, model, scen_lines, fields=ALL_FIELDS, noids=False, seq=True):
         return f"number of runs differs: impl {len(ri)} model {len(rm)}"
     runlines = [l for l in scen_lines if l.startswith(("run ", "runfrom "))]
     for k, (a, b) in enumerate(zip(ri, rm)):
-        if a["hdr"].split()[2:3] != b["hdr"].split()[2:3] and "skipped" not in a["hdr"]:
+        ra, rb = a["hdr"].split()[2:3], b["hdr"].split()[2:3]
+        if k < len(runlines) and runlines[k].startswith("runfrom") and ra and rb and ra[0].startswith("result=err") and rb[0].startswith("result=err"):
+            ra = rb = ["result=err"]
+        if ra != rb and "skipped" not in a["hdr"]:
             return f"run {k}: result differs: impl `{a['hdr']}` model `{b['hdr']}`"
         if "skipped" in a["hdr"] or "panic" in a["hdr"]:
             if a["hdr"] != b["hdr"].split(" evaluated")[0]:
                 return f"run {k}: impl `{a['hdr']}` model `{b['hdr']}`"
             continue
         multi = k < len(runlines) and runlines[k].startswith("runfrom")
+        if multi and "result=err" in a["hdr"] and "result=err" in b["hdr"]:
+            # several start states of equal depth are visited in hash order by the code: which of them fails
+            # first (and what was evaluated before) is not determined by the property
+            continue
         pa = [project(l, fields, noids) for l in a["E"]]
         pb = [project(l, fields, noids) for l in b["E"]]
         if multi or not seq:
@@ -236,9 +267,16 @@ def compare(impl, model, scen_lines, fields=ALL_FIELDS, noids=False, seq=True):
             ta = [project(l, fields, noids) for l in a["T"]]; tb = [project(l, fields, noids) for l in b["T"]]
             if ta != tb:
                 return f"run {k}: error state/trace differs:\n#   impl:  {ta}\n#   model: {tb}"
-        if a["stat"] != b["stat"]:
+        if norm_stat(a["stat"]) != norm_stat(b["stat"]):
             return f"run {k}: status counts differ: impl {a['stat']} model {b['stat']}"
     return None
+
+
+def norm_stat(s):
+    if not s:
+        return s
+    m = re.match(r"stat \[(.*)\]", s)
+    return sorted(m.group(1).split(",")) if m else s
 
 
 def corpus_scenarios(sub):
